@@ -249,12 +249,19 @@ class FuncSpec:
         self.notes = []
         self.unroll = {}
         self.uses = []
+        self.ghost_state = []
 
 
 class Lemma:
     def __init__(self, name, params):
         self.name = name; self.params = params; self.requires = []; self.ensures = []; self.file = None
         self.options = {}
+
+
+class Relation:
+    def __init__(self, name, key):
+        self.name = name; self.key = key; self.requires = []; self.ensures = []; self.file = None
+        self.options = {}; self.uses = []; self.ghosts = []; self.callbacks = {}; self.share = []
 
 
 class SpecFn:
@@ -268,6 +275,7 @@ class SpecDB:
         self.funcs = {}        # key -> FuncSpec
         self.lemmas = {}
         self.specfns = {}
+        self.relations = {}
         self.files = []
 
     def expand(self, e, depth=0):
@@ -342,6 +350,11 @@ class SpecDB:
                     ctx = FuncSpec(rest.split()[0]); ctx.file = path; loop = None
                     ctx.source = getattr(self, 'cur_source', None)
                     self.funcs[ctx.key] = ctx
+                elif head == 'relation':
+                    a = rest.split()
+                    if len(a) != 3 or a[1] != 'on': raise SpecError('relation NAME on KEY expected')
+                    ctx = Relation(a[0], a[2]); ctx.file = path; loop = None
+                    self.relations[a[0]] = ctx
                 elif head == 'lemma':
                     m = re.match(r'^([A-Za-z_][A-Za-z_0-9]*)\s*\(([^)]*)\)$', rest)
                     if not m: raise SpecError('bad lemma header')
@@ -366,6 +379,11 @@ class SpecDB:
                 elif head == 'ghost':
                     t, n = rest.split()
                     ctx.ghosts.append((t, n))
+                elif head == 'ghost_state':
+                    t, n = rest.split()
+                    ctx.ghost_state.append((t, n))
+                elif head == 'share':
+                    ctx.share += rest.replace(',', ' ').split()
                 elif head == 'loop':
                     loop = LoopSpec(int(rest)); ctx.loops[loop.k] = loop
                 elif head == 'endloop':
